@@ -2,28 +2,64 @@
    walk_adv q  : the operational walk of Trav/Walk.v + Selector.v under the quirk switches q
                  (pinned = the code as it is, repaired = all four deviations switched off);
    denote_sel  : the specified semantics of Trav/SelectorSpec.v (threads and recursion frames). *)
-Require Import IP.Base.Bytes IP.DM.Value IP.Trav.Selector IP.Trav.Walk IP.Trav.SelectorSpec
-  IP.Proofs.TravSel IP.Proofs.TravPath IP.Proofs.TravDenote IP.Proofs.TravDenoteWalk IP.Proofs.TravCompile
+Require Import IP.Base.Bytes IP.DM.Value IP.Base.GoSem IP.Gen.FromGo IP.Trav.Selector IP.Trav.Walk IP.Trav.SelectorSpec IP.Trav.QuirkFree
+  IP.Proofs.TravSel IP.Proofs.TravPath IP.Proofs.TravSlice IP.Proofs.TravDenote IP.Proofs.TravDenoteWalk IP.Proofs.TravPinned IP.Proofs.TravCompile
   IP.Proofs.TravC07Refuted.
 Open Scope Z_scope.
 
 (* the full statement for the code as it is: REFUTED below; kept visible *)
 Definition C07_full : Prop :=
   forall v s g f root,
-    compile v = COk s -> keys_graph g = true -> keys_ok root = true ->
+    compile v = COk s -> keys_graph g = true -> small_graph g = true -> keys_ok root = true -> small_dm root = true ->
     walk_adv pinned g f root s = denote_sel g f root s.
 
 (* The equivalence, for every compiled selector (all clause kinds, any nesting, any recursion limit, stop-at),
    every graph and root with unique map keys, every fuel — for the model with the four deviations repaired. *)
 Theorem C07_walk_denotes_repaired : forall v s g f root,
-  compile v = COk s -> keys_graph g = true -> keys_ok root = true ->
+  compile v = COk s -> keys_graph g = true -> small_graph g = true -> keys_ok root = true -> small_dm root = true ->
   walk_adv repaired g f root s = denote_sel g f root s.
-Proof. intros v s g f root H Hg Hk. apply walk_denote_sel; auto. eapply compile_wf; eauto. Qed.
+Proof. intros v s g f root H Hg Hsg Hk Hsm. apply walk_denote_sel; auto. eapply compile_wf; eauto. Qed.
 Print Assumptions C07_walk_denotes_repaired.
 
+(* The code AS IT IS (any setting q of the switches, in particular [pinned]) on every walk along which no
+   deviation fires.  [walk_quirk_free q g f root s] is a decidable condition that mirrors the walk: no selector's
+   explicit interests name a child twice; no bare edge is Explore'd; whenever the current clause of a recursion hands
+   back an edge, all union members it hands back are edges and the sequence has a live clause.  Covers recursion
+   with depth limits and stop-at (e.g. the "explore everything recursively" idiom, C07_pinned_fragment_example). *)
+Theorem C07_walk_denotes_quirk_free : forall q v s g f root,
+  compile v = COk s -> keys_graph g = true -> small_graph g = true -> keys_ok root = true -> small_dm root = true ->
+  walk_quirk_free q g f root s = true ->
+  walk_adv q g f root s = denote_sel g f root s.
+Proof. intros q v s g f root H Hg Hsg Hk Hsm Hq. apply walk_denote_sel_q; auto. eapply compile_wf; eauto. Qed.
+Print Assumptions C07_walk_denotes_quirk_free.
+
+(* fragment 1+2: matcher / all / fields / index / range and unions of them (no recursion), for the code as it is,
+   when no selector on the walk names a child twice *)
+Theorem C07_fragment_norec : forall v s g f root,
+  compile v = COk s -> keys_graph g = true -> small_graph g = true -> keys_ok root = true -> small_dm root = true ->
+  norec s = true -> walk_interests_ok pinned g f root s = true ->
+  walk_adv pinned g f root s = denote_sel g f root s.
+Proof. intros v s g f root H Hg Hsg Hk Hsm Hn Hi. apply walk_denote_norec; auto. eapply compile_wf; eauto. Qed.
+Print Assumptions C07_fragment_norec.
+
+(* the repaired model meets the condition on every walk; the pinned one on the canonical recursive selector *)
+Theorem C07_repaired_quirk_free : forall g f n s, walk_quirk_free repaired g f n s = true.
+Proof. exact walk_quirk_free_repaired. Qed.
+Print Assumptions C07_repaired_quirk_free.
+Theorem C07_pinned_fragment_example :
+  let g := [([1; 113; 18; 1; 170]%N, DMap [([118%N], DInt 7)])] in
+  let root := DMap [([97%N], DLink [1; 113; 18; 1; 170]%N);
+                    ([98%N], DList [DInt 1; DLink [1; 113; 18; 1; 170]%N; DString [104%N; 105%N]])] in
+  let sq := SUnion [SMatch None; SAll SEdge] in
+  walk_quirk_free pinned g 10 root (SRec sq sq (Some 2) None) = true /\
+  srcw false (SRec sq sq (Some 2) None).
+Proof. exact pinned_fragment_example. Qed.
+Print Assumptions C07_pinned_fragment_example.
+
 (* the same from any node of the walk and any runtime selector (the invariant of the proof) *)
-Theorem C07_walk_denotes_runtime : forall g, keys_graph g = true -> forall f ls P n s,
-  rt false s -> keys_ok n = true -> walk repaired g f ls P n s = denote g f ls P n (rep s []).
+Theorem C07_walk_denotes_runtime : forall g, keys_graph g = true -> small_graph g = true -> forall f ls P n s,
+  rt false s -> keys_ok n = true -> small_dm n = true ->
+  walk repaired g f ls P n s = denote g f ls P n (rep s []).
 Proof. exact walk_denote. Qed.
 Print Assumptions C07_walk_denotes_runtime.
 
@@ -34,12 +70,24 @@ Theorem C07_explore_is_sstep : forall s b fr n ps v,
             lrep_opt r fr = flat_map (sstep n ps v) (rep s fr).
 Proof. exact explore_sstep. Qed.
 Print Assumptions C07_explore_is_sstep.
-Theorem C07_match_is_smatch : forall s fr n, match_sel s n = smatch (rep s fr) n.
+Theorem C07_match_is_smatch : forall s b fr n, rt b s -> small_top n -> match_sel s n = smatch (rep s fr) n.
 Proof. exact match_rep. Qed.
 Print Assumptions C07_match_is_smatch.
 Theorem C07_interests_is_sinterests : forall s fr, interests s = sinterests (rep s fr).
 Proof. exact interests_rep. Qed.
 Print Assumptions C07_interests_is_sinterests.
+
+(* the generated sliceBounds (Gen/FromGo.v, from matcher.go) meets the documented slice semantics and its
+   results never make the Go slicing panic *)
+Theorem C07_slice_bounds_spec : forall from to len,
+  in64 from -> in64 to -> 0 <= len < two63 -> go_sliceBounds from to len = slice_spec from to len.
+Proof. exact slice_bounds_spec. Qed.
+Print Assumptions C07_slice_bounds_spec.
+Theorem C07_slice_bounds_safe : forall from to len ok f t,
+  in64 from -> in64 to -> 0 <= len < two63 ->
+  go_sliceBounds from to len = (ok, f, t) -> ok = true -> 0 <= f <= t /\ t <= len /\ f < len.
+Proof. exact slice_bounds_safe. Qed.
+Print Assumptions C07_slice_bounds_safe.
 
 (* compiled selectors are closed declared selectors (edges only beneath a recursion) *)
 Theorem C07_compile_wf : forall v s, compile v = COk s -> srcw false s.
@@ -77,6 +125,6 @@ Print Assumptions C07_refuted_shared_depth.
 Theorem C07_full_refuted : ~ C07_full.
 Proof.
   intros H. destruct refuted_union_dup as [(s & Hc & Hd) _].
-  apply Hd. apply (H w1_sel s [] 20%nat w1_root Hc eq_refl eq_refl).
+  apply Hd. apply (H w1_sel s [] 20%nat w1_root Hc eq_refl eq_refl eq_refl eq_refl).
 Qed.
 Print Assumptions C07_full_refuted.
